@@ -160,7 +160,7 @@ func (x *fnExec) staticCall(fr *frame, st *State, ci ssa.CallInstruction, res ss
 		if fr.depth >= maxInlineDepth {
 			panic("inline depth exceeded at " + key)
 		}
-		if c != nil && !bare && len(c.BindErr) == 0 && !(fr.inline && !fr.safety) {
+		if c != nil && !bare && c.usableAtCalls() && !(fr.inline && !fr.safety) {
 			// an inlined callee still has its preconditions checked at the call site
 			vars := x.paramEnv(fn, args)
 			site := "call " + key + " at " + x.P.Fset.Position(ci.Pos()).String()
@@ -182,7 +182,7 @@ func (x *fnExec) staticCall(fr *frame, st *State, ci ssa.CallInstruction, res ss
 		x.inlineBody(fr, st, nf, res, fresh)
 		return
 	}
-	if c != nil && len(c.BindErr) == 0 && (len(c.Requires) > 0 || len(c.Ensures) > 0 || c.HasMod) {
+	if c != nil && c.usableAtCalls() && (len(c.Requires) > 0 || len(c.Ensures) > 0 || c.HasMod) {
 		x.contractCall(fr, st, ci, res, fn, c, args, fresh)
 		return
 	}
@@ -733,7 +733,7 @@ func (p *Program) effectsPass(fn *ssa.Function, e *effectSet) {
 						// note: a callee that releases and re-acquires a lock lets other goroutines run; that interference is
 						// modelled only inside the function being verified (see builtin.go), not in callee summaries
 					}
-					if c := p.Contracts[funcKey(f)]; c != nil && c.HasMod && len(c.BindErr) == 0 {
+					if c := p.Contracts[funcKey(f)]; c != nil && c.HasMod && c.usableAtCalls() {
 						// declared (and checked) frame of the callee, relative to the actual arguments
 						if ks, ok := p.modifiesKeys(c, f, cc.Args); ok {
 							for _, k := range ks {
@@ -1214,4 +1214,25 @@ func (x *fnExec) receiverNonNil(st *State, args []Val) *Term {
 		return nil
 	}
 	return Not(Eq(args[0].Ref, BVU(0, 64)))
+}
+
+
+// usableAtCalls: the interface of the contract (pre- and postconditions) is bound to the current code, so callers can
+// still be checked against it even when clauses about the function's interior (loop invariants, at-assertions) have lost
+// their anchors — in that case the function's own obligations are undecided, its callers' are not.
+func (c *Contract) usableAtCalls() bool {
+	if c.Fn == nil {
+		return false
+	}
+	for _, cl := range c.Requires {
+		if cl.Info == nil {
+			return false
+		}
+	}
+	for _, cl := range c.Ensures {
+		if cl.Info == nil {
+			return false
+		}
+	}
+	return true
 }
